@@ -42,7 +42,7 @@ def oracle_split(rep, rc, k, parts, unsplit, split, text):
     if split.outcome != "ok":
         kind = split.outcome.split(":")[-1] if split.outcome.startswith("internal") else "recipe_error"
         if "RepresenterError" in (split.error or ""):
-            what = "NicknameSlot" if "NicknameSlot" in split.error else "Decimal" if "Decimal" in split.error else "other"
+            what = next((w for w in ("NicknameSlot", "LazyLoadedObjectReference", "Decimal") if w in split.error), "other")
             rep.violation(f"C04:continuation-save-fails:{what}",
                           f"writing the continuation file failed ({split.error[:120]}) although the uninterrupted run completes",
                           case, "ok", split.error)
@@ -80,6 +80,85 @@ def run_case(rep, rc, k, comps, pending):
         nontrivial = split.outcome == "ok" and len(parts) > 1 and len(split.rows) >= 3
         rep.case({"recipe": text, "parts": parts}, nontrivial=nontrivial)
         rep.count("runs:%d" % len(parts))
+
+
+def _rref_fields(recipe):
+    """(table, field) pairs filled by random_reference anywhere in a RefGen recipe; and whether a just_once
+    template stores a row-valued field (reference / nested object)"""
+    rr, jo_row = set(), False
+
+    def walk(t, top_jo):
+        nonlocal jo_row
+        for f, v in (t.get("fields") or {}).items():
+            if isinstance(v, dict) and "random_reference" in v:
+                rr.add((t["object"], f))
+                if top_jo:
+                    jo_row = True
+            elif isinstance(v, dict) and "reference" in v:
+                if top_jo:
+                    jo_row = True
+            elif isinstance(v, list):
+                if top_jo:
+                    jo_row = True
+                for c in v:
+                    walk(c, False)
+        for c in t.get("friends") or []:
+            walk(c, False)
+
+    for t in recipe:
+        walk(t, bool(t.get("just_once")))
+    return rr, jo_row
+
+
+def random_family_case(rep, recipe, k, parts, seed):
+    """Recipes WITH random functions (RefGen: random_reference next to references, nesting, friends, just_once):
+    the property promises equal ids, per-table row counts and the table of every reference, and that the
+    continued run does not fail where the uninterrupted one completes."""
+    import random as _random
+
+    from . import l1
+
+    text = recipes.dump(recipe)
+    case = {"kind": "random", "recipe": text, "parts": parts, "k": k, "seed": seed, "struct": recipe}
+    rr, jo_row = _rref_fields(recipe)
+    _random.seed(seed)
+    one = l1.run_chain(text, [k], trace=False, final_continuation=False)
+    rep.count("random-family:unsplit:" + one.outcome.split(":")[0])
+    if one.outcome != "ok":
+        return
+    _random.seed(seed)
+    ch = l1.run_chain(text, parts, trace=False, final_continuation=False)
+    tag = "justonce-row-field" if jo_row else "general"
+    if ch.outcome != "ok":
+        if "RepresenterError" in (ch.error or ""):
+            what = next((w for w in ("NicknameSlot", "LazyLoadedObjectReference", "Decimal") if w in ch.error), "other")
+            rep.violation(f"C04:continuation-save-fails:{what}", f"writing the continuation file failed ({ch.error[:120]}) although the uninterrupted run completes", case, "ok", ch.error)
+        else:
+            rep.violation(f"C04:split-fails:{tag}" if jo_row else "C04:split-fails:random-family",
+                          f"the split run {parts} fails ({(ch.error or '')[:160]}) although the uninterrupted run of {k} iterations completes", case, "ok", ch.error)
+        return
+
+    def shape(rows):
+        out = []
+        for table, fields in rows:
+            fs = []
+            for f, v in fields:
+                if isinstance(v, dict) and v.get("t") == "ref":
+                    v = {"t": "ref", "table": v["table"], "id": None if (table, f) in rr else v["id"]}
+                fs.append([f, v])
+            out.append([table, fs])
+        return out
+
+    a = shape([r for run in one.runs for r in run.rows])
+    b = shape([r for run in ch.runs for r in run.rows])
+    if a != b:
+        i = 0
+        while i < min(len(a), len(b)) and a[i] == b[i]:
+            i += 1
+        rep.violation(f"C04:split-differs:{tag}" if jo_row else "C04:split-differs:random-family",
+                      f"split {parts} differs from the uninterrupted run at row {i} (ids, row counts, reference tables; random_reference ids masked): {b[i] if i < len(b) else None} vs {a[i] if i < len(a) else None}",
+                      case, a[i] if i < len(a) else None, b[i] if i < len(b) else None)
+    rep.case({"recipe": text, "parts": parts, "random": True}, nontrivial=len(parts) > 1 and len(a) >= 3)
 
 
 def cli_chain_case(rep, rc, parts):
@@ -183,13 +262,29 @@ def run(ctx, rep, findings):
                 "recipes) and real chain vs Lean chain model. Non-trivial: completed split run with >= 2 runs, >= 3 rows.")
     pending = []
     for c in [f["input"] for f in findings if f.get("input")] + ctx.corpus():
-        run_case(rep, c["ast"], sum(c["parts"]), [c["parts"]], pending)
+        if c.get("kind") == "random":
+            random_family_case(rep, c["struct"], c["k"], c["parts"], c["seed"])
+        else:
+            run_case(rep, c["ast"], sum(c["parts"]), [c["parts"]], pending)
     # what a continuation must restore: just_once rows with every kind of scalar, visible and hidden
     for i in range(ctx.scale(60, 600)):
         rc = recipes.persist_case(ctx.rng)
         k = ctx.rng.randint(2, 3)
         run_case(rep, rc, k, [c for c in recipes.all_compositions(k) if len(c) > 1], pending)
         rep.count("family:persisted-values")
+    # recipes with random functions: ids, row counts, reference tables; the continued run must not fail
+    for i in range(ctx.scale(150, 2000)):
+        g = recipes.RefGen(ctx.rng)
+        recipe = g.recipe()
+        if i % 2 == 0 and "random_reference" not in g.features:
+            # force the interesting shape: a table that is a random_reference target whose rows refer to other rows
+            tabs = [t["object"] for t in recipe if not t["object"].startswith("__")]
+            if tabs:
+                recipe.append({"object": "C", "fields": {"rr": {"random_reference": ctx.rng.choice(tabs)}}})
+        k = ctx.rng.randint(2, 4)
+        comps = [c for c in recipes.all_compositions(k) if len(c) > 1]
+        random_family_case(rep, recipe, k, ctx.rng.choice(comps), ctx.rng.randint(0, 10**6))
+        rep.count("family:random-functions")
     # the command-line entry point with one rolling continuation file
     for i in range(ctx.scale(12, 150)):
         rc = recipes.persist_case(ctx.rng) if i % 2 else recipes.L2Gen(ctx.rng).recipe()
@@ -219,6 +314,9 @@ def run(ctx, rep, findings):
 
 
 def replay(case, rep):
+    if case.get("kind") == "random":
+        random_family_case(rep, case["struct"], case["k"], case["parts"], case["seed"])
+        return
     if case.get("kind") == "cli":
         cli_chain_case(rep, case["ast"], case["parts"])
         return
